@@ -30,7 +30,7 @@ ASSUMPTIONS = ["reference evaluator harness/graphs.py:ref_eval encodes the docum
 # values as None showed every generated value was truthy)
 BOUNDS = {"quick": {"leaves": 3, "max_items": 2, "leaf_outcomes": ["value", "skip", "none", "zero", "disabled"]},
           "thorough": {"leaves": 3, "max_items": 3, "leaf_outcomes": ["value", "skip", "none", "zero", "disabled", "content", "error"]}}
-CAP_S = {"quick": 150, "thorough": 1500}
+CAP_S = {"quick": 300, "thorough": 3000}
 
 SINGLES = [0, 1, 2]
 GROUPS = [[0], [0, 1], [1, 0], [1, 2], [0, 1, 2], [0, 0], []]     # [] = an at-least-one group without members: never satisfiable
